@@ -82,8 +82,8 @@ def nbunches(cfg):
 def model_schedule(cfg, steps_done=None, sig=-1):
     """ask the Lean model (driver `main` case) what the file must contain"""
     ls = laststep(cfg["N"], cfg["T"])
-    line = "main m %d %d %d %d %d 1 0 %d\nrun\n" % (ls, cfg["outstep"], cfg["h5save"], cfg["renorm"],
-                                                   1 if has_wake(cfg) else 0, sig)
+    line = "main m %d %d %d %d %d 1 %d %d\nrun\n" % (ls, cfg["outstep"], cfg["h5save"], cfg["renorm"],
+                                                    1 if has_wake(cfg) else 0, 1 if cfg.get("rfmod") else 0, sig)
     path = os.path.join(lib.CACHE, "main_%d.txt" % os.getpid())
     with open(path, "w") as f:
         f.write(line)
